@@ -322,7 +322,7 @@ def shared(ctx):
             for i in o.instances:
                 ob.instance("C16.3: " + i["what"], i["detail"])
             for r in o.refutations:
-                ob.refute(r["key"], r["msg"], None)
+                ob.refute(r["key"], r["msg"], r.get("loc"))
             for u in o.unknowns:
                 ob.unknown(u)
     sub2 = Ctx("C02", ctx.tier, ctx.seed, ctx.repo)
@@ -333,7 +333,7 @@ def shared(ctx):
                 ob.instance("C02.1: " + i["what"], i["detail"])
         for r in o.refutations:
             if r["key"].startswith("events:"):
-                ob.refute(r["key"], r["msg"], None)
+                ob.refute(r["key"], r["msg"], r.get("loc"))
 
 
 def run(ctx):
